@@ -1,6 +1,6 @@
 """C14 — elementary components realise their documented matrices for all parameter values.
 
-Four correspondence streams, each run on the REAL classes (`BS`, `PS`, `WP`, `HWP`, `QWP`, `PR`, `PERM`,
+Five correspondence streams, each run on the REAL classes (`BS`, `PS`, `WP`, `HWP`, `QWP`, `PR`, `PERM`,
 `Parameter`, `Expression`) and on the Lean model (`Model/C14.lean` through `Driver/C14.lean`):
 
 * matrix — every component/convention at rational-trigonometric points (Pythagorean-triple cos/sin,
@@ -23,6 +23,17 @@ Four correspondence streams, each run on the REAL classes (`BS`, `PS`, `WP`, `HW
   the model computes with is the exact value of the double handed to the operator.  A deterministic sweep
   puts every operator form on every long operand; real / negative exponents (`p**2.5`, `p**-1`) are outside
   the model's language and judged by the direct oracle alone.
+
+* life — the Parameter lifecycle and parameters shared between slots (`Model/C14Life.lean`): whole histories on
+  1-3 parameter objects (no / own / one-sided / degenerate ranges, fixed from the start) and up to 3 components
+  (PS, BS, WP, PR; slots given as numbers or as shared objects, also across slots of different declared ranges):
+  constructor, `set_value(force)`, `fix_value`, `reset`, `set_periodic`, `assign` (also through
+  `compute_unitary(assign=)`), `reset_parameters`, `copy`.  After every call: the exception class, every object's
+  min / max / periodic / is_variable / value, every component's `vars`, `defined`, `get_variables()`, the copy.
+  The model answers for both `_set_parameter` rules (pinned: periodic over the intersection of the ranges;
+  repaired, `fixes/C14-shared-range.diff`: periodic only on exactly the slot's range); the code must follow one
+  of them, and the property itself is decided by the direct oracle (accepted value inside the bounds, fixed
+  parameters unchanged, numeric matrix = documented matrix at the values REQUESTED for the parameters).
 
 Direct oracles (independent of the Lean driver) used to classify a disagreement: the documentation's
 formulas written in numpy/cmath, `lo <= stored <= hi and stored ≡ requested (mod span)`, `U e_k = e_{l[k]}`.
@@ -1428,10 +1439,14 @@ def life_oracle(case, obs):
             user_periodic.add(op["x"])
         elif k == "mk" and ok:
             comp_args[op["c"]] = (op["kind"], op.get("conv"), {s: life_slot_arg(op, s) for s, _, _, _ in LIFE_SLOTS[op["kind"]]})
+            # a parameter plugged into a new slot brings the value it HOLDS (possibly wrapped for its former slots)
+            for a in comp_args[op["c"]][2].values():
+                if "ref" in a and a["ref"] in requested and snp["params"][a["ref"]][4] is not None:
+                    requested[a["ref"]] = snp["params"][a["ref"]][4]
         elif k == "assign":
             prev = obs["snaps"][i - 1]["params"] if i else {}
             for n, v in op["kv"]:
-                if n in snp["params"] and snp["params"][n][4] is not None and \
+                if n in snp["params"] and snp["params"][n][3] and snp["params"][n][4] is not None and \
                         (n not in prev or prev[n][4] != snp["params"][n][4] or ok):
                     requested[n] = v
                 if not ok and (n not in snp["params"]):
@@ -1482,7 +1497,7 @@ def life_oracle(case, obs):
             doc = doc_matrix(kind, conv, vals)
             if not core.mat_close(d["num"], doc, 1e-8):
                 shared = {a["ref"] for a in args.values() if "ref" in a}
-                bad.append(("shared-range-wraps-narrower-span" if life_shared_ranges(case, shared) else
+                bad.append(("shared-range-wraps-narrower-span" if life_shared_ranges(case, shared, own=True) else
                             "life-matrix-not-documented",
                             f"op {i} {k}: the matrix of {cid} ({kind}{'.' + conv if conv else ''}) with the requested "
                             f"values {vals} differs from the documented matrix by "
@@ -1490,10 +1505,13 @@ def life_oracle(case, obs):
     return bad
 
 
-def life_shared_ranges(case, names):
-    """some parameter of `names` is plugged into slots of different declared ranges"""
+def life_shared_ranges(case, names, own=False):
+    """some parameter of `names` is plugged into slots of different declared ranges (own=True: or was created
+    with a bound of its own, so that its range can differ from the range of the slot it is plugged into)"""
     seen = {}
     for op in case["ops"]:
+        if own and op["k"] == "new" and op["x"] in names and (op["lo"] is not None or op["hi"] is not None):
+            return True
         if op["k"] != "mk":
             continue
         for slot, lo, hi, _ in LIFE_SLOTS[op["kind"]]:
@@ -1548,7 +1566,7 @@ def gen_life_case(rng, force_shared=None):
             per = True
             val = rng.uniform(-10, 10)                    # fixed from the start
         elif r < 0.74:
-            lo, hi, per, val = -2.0, 5.0, False, (None if rng.random() < 0.7 else rng.uniform(-4, 7))
+            lo, hi, per, val = -2.0, 5.0, False, (None if rng.random() < 0.7 else rng.uniform(-2, 5))
         elif r < 0.86:
             lo, hi, per, val = rng.choice([0.0, -1.0]), rng.choice([1.0, 4.0, TWO_PI]), True, \
                 (None if rng.random() < 0.7 else rng.uniform(-9, 9))
@@ -1557,7 +1575,7 @@ def gen_life_case(rng, force_shared=None):
             per, val = rng.random() < 0.5, None
         else:
             lo, hi = rng.choice([(1.0, 1.0), (2.0, 0.0)])   # degenerate: zero span / inverted
-            per, val = True, (None if rng.random() < 0.5 else rng.choice([1.0, 5.0]))
+            per, val = True, None       # (a constructor that raises is in the deterministic sweep only)
         ops.append({"k": "new", "x": n, "val": val, "lo": lo, "hi": hi, "periodic": per})
         bounds[n] = (lo, hi)
     comps = []
@@ -1734,6 +1752,28 @@ def shrink_candidates(stream, case):
         if len(l) > 1 and sorted(l) == list(range(len(l))):
             yield {"l": [x for x in l if x != len(l) - 1]}
             yield {"l": [x - 1 for x in l if x != 0]}
+    elif stream == "life":
+        ops = case["ops"]
+        for i in range(len(ops) - 1, -1, -1):
+            op = ops[i]
+            later = ops[i + 1:]
+            if op["k"] == "new" and any(life_op_uses(o, name=op["x"]) for o in later):
+                continue
+            if op["k"] == "mk" and any(o.get("c") == op["c"] for o in later):
+                continue
+            yield {"ops": ops[:i] + ops[i + 1:]}
+        for i, op in enumerate(ops):
+            if op["k"] == "assign" and len(op["kv"]) > 1:
+                for j in range(len(op["kv"])):
+                    c = copy.deepcopy(case)
+                    del c["ops"][i]["kv"][j]
+                    yield c
+            if op["k"] == "mk":
+                for slot in list(op["args"]):
+                    if "ref" in op["args"][slot]:
+                        c = copy.deepcopy(case)
+                        c["ops"][i]["args"][slot] = {"num": 0.25}
+                        yield c
     elif stream == "expr":
         for i in range(len(case["hist"])):
             c = copy.deepcopy(case)
@@ -1755,6 +1795,14 @@ def shrink_candidates(stream, case):
                         c = copy.deepcopy(case)
                         c["comps"][ci]["slots"][s] = ast[sub]
                         yield c
+
+
+def life_op_uses(op, name):
+    if op.get("x") == name:
+        return True
+    if op["k"] == "mk":
+        return any(a.get("ref") == name for a in op["args"].values())
+    return False
 
 
 def shrink(chk, stream, case, sig, budget=40):
@@ -1845,6 +1893,57 @@ def record_case(chk, stream, case, obs):
             chk.branch("perm-rejected")
         chk.case(("P", tuple(case["l"])), case["l"] != list(range(n)),
                  _sample(chk, stream, {"stream": "perm", "l": case["l"]}) if n >= 4 else None)
+    elif stream == "life":
+        ops = case["ops"]
+        chk.count("life_history_len", len(ops))
+        shared_diff = life_shared_ranges(case, {o["x"] for o in ops if o["k"] == "new"})
+        refs = {}
+        for o in ops:
+            chk.count("life_op", o["k"])
+            if o["k"] == "mk":
+                for slot, lo, hi, _ in LIFE_SLOTS[o["kind"]]:
+                    a = life_slot_arg(o, slot)
+                    if "ref" in a:
+                        refs.setdefault(a["ref"], []).append((lo, hi))
+        if shared_diff:
+            chk.branch("life-shared-different-range")
+        if any(len(v) > 1 and len(set(v)) == 1 for v in refs.values()):
+            chk.branch("life-shared-same-range")
+        for o, res, snp in zip(ops, obs.get("out", []), obs.get("snaps", [])):
+            if isinstance(res, str):
+                chk.branch("life-raises:" + res)
+                chk.count("life_exception", f"{o['k']}:{res}")
+            if o["k"] in ("set", "fix") and res is None:
+                info = snp["params"].get(o["x"])
+                if info and info[4] is not None and info[4] != o["v"]:
+                    chk.branch("life-set-wrapped")
+            if o["k"] == "set" and o["force"] and res is None:
+                chk.branch("life-force")
+            if o["k"] == "fix":
+                chk.branch("life-fix")
+            if o["k"] == "reset":
+                chk.branch("life-reset")
+            if o["k"] == "copy":
+                chk.branch("life-copy")
+            if o["k"] == "assign":
+                chk.branch("life-assign")
+                if isinstance(res, str) and o["kv"] and o["kv"][0][0] in snp["params"]:
+                    chk.branch("life-assign-partial")
+            if o["k"] == "mk" and res is None:
+                for slot, lo, hi, _ in LIFE_SLOTS[o["kind"]]:
+                    a = life_slot_arg(o, slot)
+                    i0 = ops.index(o)
+                    if "ref" in a and i0 and obs["snaps"][i0 - 1]["params"].get(a["ref"], [0] * 5)[4] is not None:
+                        v0 = obs["snaps"][i0 - 1]["params"][a["ref"]][4]
+                        if v0 < lo or v0 > hi:
+                            chk.branch("life-stale-value")
+        for snp in obs.get("snaps", []):
+            for cid, d in snp["comps"].items():
+                if d["defined"] and any(g is None for (sl, _, _, _), g in
+                                        zip(LIFE_SLOTS[life_kind(case, cid)], d["getvars"]) if sl != "max_error"):
+                    chk.branch("life-getvars-default-hidden")
+        chk.case(("L", json.dumps(ops, sort_keys=True)), len(ops) >= 4 and any(o["k"] == "mk" for o in ops),
+                 _sample(chk, stream, {"stream": "life", "ops": [o["k"] for o in ops][:12]}))
     else:
         if obs.get("degenerate"):
             chk.count("expr", "degenerate-skipped")
@@ -1928,12 +2027,16 @@ def setup(chk):
                 "cos/sin per slot), non-trivial = at least one angle outside its nominal range; wrap stream: "
                 "(entry point, bounds, value), non-trivial = value outside the interval; perm stream: the list, "
                 "non-trivial = not the identity; expr stream: (bound expressions, history length), non-trivial = "
-                "an expression of nesting >= 2 with >= 2 set_value calls")
+                "an expression of nesting >= 2 with >= 2 set_value calls; life stream: the whole history of calls, "
+                "non-trivial = >= 4 operations with at least one component built")
     chk.assumptions = [
         "math.cos/math.sin/cmath.exp and sympy's numeric evaluation are trusted to 1e-12 (external numerics)",
         "PS.max_error = 0 (the random phase error is not part of the property)",
-        "a named parameter is bound directly only to slots with the same declared range (a parameter shared "
-        "between theta [0,4pi] and a phase [0,2pi] gets the narrower interval, whose span is not a period of theta)",
+        "matrix / expr streams: a named parameter is bound directly only to slots with the same declared range; "
+        "parameters shared between slots of different ranges are covered by the life stream",
+        "life stream, direct oracle on matrices: only for parameters whose periodicity was not declared by the user "
+        "(created without a two-sided range, no set_periodic call): wrapping on a user-declared period is the "
+        "user's statement, not the component's",
         "expression values are compared with tolerance 1e-9*(1+S), S = the expression evaluated with every "
         "operation replaced by its absolute version (bounds the float rounding error); ill-conditioned "
         "divisors (|b| < 1e-3 * S(b)) and division by zero are not compared",
@@ -1945,7 +2048,12 @@ def setup(chk):
                              "perm-exhaustive", "perm-random", "perm-rejected", "expr-by-name", "expr-by-expression",
                              "expr-nested", "expr-rejected-set", "expr-undefined", "expr-value-changed-again",
                              "operand-sweep", "long-operand-nested"] + [
-                                 "long-operand:" + f for f in ("mul", "rmul", "add", "radd", "sub", "rsub", "div", "pow")]
+                                 "long-operand:" + f for f in ("mul", "rmul", "add", "radd", "sub", "rsub", "div", "pow")] + [
+                                 "life-shared-different-range", "life-shared-same-range", "life-set-wrapped",
+                                 "life-force", "life-fix", "life-reset", "life-copy", "life-assign",
+                                 "life-assign-partial", "life-stale-value", "life-getvars-default-hidden"] + [
+                                 "life-raises:" + e for e in ("ValueError", "RuntimeError", "TypeError",
+                                                              "ZeroDivisionError", "KeyError")]
 
 
 def run(chk: core.Check):
@@ -1987,6 +2095,9 @@ def run(chk: core.Check):
         # expressions: every operator form on every long numeric operand (deterministic), then random
         process(chk, pool, "expr", operand_sweep_cases(), seen)
         process(chk, pool, "expr", [gen_expr_case(rng) for _ in range(chk.pick(250, 4000))], seen)
+        # parameter lifecycle and shared parameters: deterministic histories, then random ones
+        process(chk, pool, "life", life_sweep_cases(), seen)
+        process(chk, pool, "life", [gen_life_case(rng) for _ in range(chk.pick(300, 5000))], seen)
     chk.exhaustive = False
     chk.extra["exhaustive_parts"] = ["every bound + k*span, |k| <= 100, of the three declared intervals",
                                      "every permutation of <= 5 modes",
